@@ -36,7 +36,11 @@ type BoxError = Box<dyn std::error::Error + Send + Sync + 'static>;
 
 const SVCS: &[&str] = &["client", "clientnp", "pool", "nopool", "connector", "connector"];
 const HOSTS: &[&str] = &["example.com", "www.example.com", "localhost", "127.0.0.1", "10.1.2.3", "[::1]", "[2001:db8::7]", "x", "exa$mple.com", "a..b",
-    "other.test", "EXAMPLE.com", "xn--nxasmq6b.example.com", "1.2.3", "my_host", "[fe80::1%25eth0]", "[1:2]"];
+    "other.test", "EXAMPLE.com", "xn--nxasmq6b.example.com", "1.2.3", "my_host", "[fe80::1%25eth0]", "[1:2]",
+    // an empty host (`http://:80/`), user information, both
+    "^", "user@example.com", "user:pw@example.com", "user@^", "[]"];
+/// ports the URI grammar lets through although they are no port numbers: empty (`host:`), out of range, not a number
+const ODD_PORTS: &[&str] = &["e", "99999", "8a", "65536", "080"];
 const SCHEMES: &[&str] = &["http", "https", "ws", "wss", "http", "https", "foo", "Wss", "h2c"];
 const METHODS: &[&str] = &["GET", "POST", "PUT", "DELETE", "HEAD", "OPTIONS", "PATCH", "CONNECT", "CONNECT", "TRACE", "PURGE", "GET", "GET"];
 const PATHS: &[&str] = &["-", "/", "/a", "/a/b/c", "/a%20b", "/~user/x;y=1", "//double", "*"];
@@ -55,7 +59,7 @@ pub fn gen(r: &mut Rng, _i: u64) -> String {
         0 => ("-", "-", "-".to_string(), *r.pick(&["/", "/a", "/rel/path"]), *r.pick(QUERIES)),            // origin-form
         1 => ("-", *r.pick(HOSTS), r.pick(&["-", "80", "443", "8080"]).to_string(), "-", "-"),            // authority-form
         2 => ("-", "-", "-".to_string(), "*", "-"),                                                         // asterisk-form
-        _ => (*r.pick(SCHEMES), *r.pick(HOSTS), match r.below(6) { 0 | 1 => "-".to_string(), 2 => "80".into(), 3 => "443".into(), 4 => "0".into(), _ => r.range(1, 65535).to_string() },
+        _ => (*r.pick(SCHEMES), *r.pick(HOSTS), match r.below(7) { 0 | 1 => "-".to_string(), 2 => "80".into(), 3 => "443".into(), 4 => "0".into(), 5 => r.pick(ODD_PORTS).to_string(), _ => r.range(1, 65535).to_string() },
               *r.pick(PATHS), *r.pick(QUERIES)),
     };
     let path = if path == "*" && scheme != "-" { "/" } else { path };
@@ -68,7 +72,8 @@ pub fn gen(r: &mut Rng, _i: u64) -> String {
 pub fn exhaustive() -> Vec<String> {
     let mut out = vec![];
     let forms = ["http example.com - / -", "https example.com 443 /a q=1", "https [::1] - / -", "https exa$mple.com - / -", "wss example.com - /ws -", "foo example.com - / -", "foo example.com 99 / -",
-        "- - - /rel -", "- example.com 443 - -", "- - - * -", "http example.com - - -", "https other.test - / -", "http 127.0.0.1 8080 /a -"];
+        "- - - /rel -", "- example.com 443 - -", "- - - * -", "http example.com - - -", "https other.test - / -", "http 127.0.0.1 8080 /a -",
+        "http ^ 80 / -", "https user@^ - / -", "http example.com e / -", "https example.com 99999 / -", "http [::1] 8a /a -", "http user:pw@example.com - / -"];
     for svc in ["client", "clientnp", "pool", "nopool", "connector"] {
         for tls in [0, 1, 2] {
             for tc in [0, 1] {
@@ -131,7 +136,7 @@ fn build_request(toks: &[&str]) -> Option<http::Request<Body>> {
     let (method, scheme, host, port, path, query, ver) = (toks[0], toks[1], toks[2], toks[3], toks[4], toks[5], toks[6]);
     let mut uri = String::new();
     if scheme != "-" { uri.push_str(scheme); uri.push_str("://"); }
-    if host != "-" { uri.push_str(host); if port != "-" { uri.push(':'); uri.push_str(port); } }
+    if host != "-" { uri.push_str(&host.replace('^', "")); if port != "-" { uri.push(':'); if port != "e" { uri.push_str(port); } } }
     if path != "-" { uri.push_str(path); }
     if query != "-" { uri.push('?'); uri.push_str(query); }
     let version = match ver { "09" => http::Version::HTTP_09, "10" => http::Version::HTTP_10, "11" => http::Version::HTTP_11, "2" => http::Version::HTTP_2, _ => http::Version::HTTP_3 };
@@ -224,9 +229,11 @@ async fn run_case(toks: &[&str]) -> String {
     tokio::time::sleep(std::time::Duration::from_millis(10)).await;
     let after = PANICS.load(Ordering::SeqCst);
     let caller = (out == "panic") as usize;
-    let host = toks[5];
+    // the host as `Uri::host` sees it: `^` stands for the empty host, user information is not part of it
+    let host_tok = toks[5].replace('^', "");
+    let host = host_tok.rsplit('@').next().unwrap_or("");
     let stripped = host.strip_prefix('[').and_then(|h| h.strip_suffix(']')).unwrap_or(host);
-    let nv = (host == "-" || rustls::pki_types::ServerName::try_from(stripped).is_ok()) as u8;
+    let nv = (toks[5] == "-" || rustls::pki_types::ServerName::try_from(stripped).is_ok()) as u8;
     format!("{out} {} {nv}", (after - before).saturating_sub(caller))
 }
 
